@@ -828,9 +828,10 @@ void eb_mul_lodah(eb_t r, const eb_t p, const bn_t k) {
 		}
 
 		r->coord = BASIC;
-		if (bn_sign(k) == RLC_NEG) {
-			eb_neg(r, r);
-		}
+		/* Negate the result for a negative scalar without branching on the
+		 * sign: -(x, y) = (x, x + y), and the point at infinity is all-zero. */
+		fb_add(r5, r->x, r->y);
+		dv_copy_sec(r->y, r5, RLC_FB_DIGS, bn_sign(k) == RLC_NEG);
 	}
 	RLC_CATCH_ANY {
 		RLC_THROW(ERR_CAUGHT);
